@@ -314,6 +314,7 @@ func walk(seed []byte, net int, path []uint32, opt walkOpt) {
 		if d := conforms(ch, cn, vpriv); d != "" {
 			rep.Violate("C04:child:priv_conforms", "private Child differs from CKDpriv in: "+d,
 				c.replay(map[string]interface{}{"parent": descKey(parF), "index": i, "impl": descKey(ch.VerifFields())}))
+			return // everything below this node would differ as a consequence
 		}
 		if cn.K.BitLen() <= 248 {
 			rep.Histogram["child_scalar_leading_zero_byte"]++
@@ -966,11 +967,13 @@ func main() {
 }
 
 func finish() {
-	rep.Cases = cases.Len()
-	rep.Extra["duplicate_cases_dropped"] = cases.Dups
 	rep.Extra["spec_gap_events_seen"] = gapsSeen
-	_, err := cases.Flush()
-	vh.Must(err)
+	if !cfg.Search { // search mode is monitor-only
+		rep.Cases = cases.Len()
+		rep.Extra["duplicate_cases_dropped"] = cases.Dups
+		_, err := cases.Flush()
+		vh.Must(err)
+	}
 	vh.Must(rep.Write(cfg))
 	fmt.Printf("c04: %d implementation executions, %d correspondence cases, %d monitor violations\n", rep.Evaluations, rep.Cases, len(rep.Violations))
 }
